@@ -819,9 +819,11 @@ def splitDot : List Char → List Char × Option (List Char)
   | [] => ([], none)
   | c :: r => if c = '.' then ([], some r) else let (a, b) := splitDot r; (c :: a, b)
 
-/-- `GlueRatio::from_float_str` = `Scaled::parse_from_string(s ++ "pt")`: a leading `-` applies
-to the whole number (C06-h); with fix C18-d a fraction character that is not a decimal digit is
-an error, not an arithmetic overflow. -/
+/-- `GlueRatio::from_float_str` (with fix C18-e): an optional `-` for the whole number, an
+`i32` integer part, an optional fraction of decimal digits (`from_decimal_digits`), the value
+`integer * 2^16 + fraction` in the range of an `i32` other than `i32::MIN`. Before C18-e the
+number was read as a dimension (`Scaled::parse_from_string(s ++ "pt")`) and values of 16384
+and more — which `Display for GlueRatio` writes, up to `20000.0` — were rejected. -/
 def parseRatioAbs (s : Str) : Option Int :=
   let (ip, fr) := splitDot s
   match parseI32 ip with
@@ -829,7 +831,9 @@ def parseRatioAbs (s : Str) : Option Int :=
   | some n =>
     let fs := fr.getD []
     match scanFrac fs with
-    | (ds, []) => scaledNew n ((ds.foldr (fun d a => (a + d * 131072) / 10) 0 + 1) / 2) 1 1 false
+    | (ds, []) =>
+      let v : Int := n * 65536 + (((ds.foldr (fun d a => (a + d * 131072) / 10) 0 + 1) / 2 : Nat) : Int)
+      if v < -2147483647 || v > 2147483647 then none else some v
     | _ => none
 
 def parseRatio (s : Str) : Option Int :=
@@ -1019,7 +1023,7 @@ def exprNode : Node → Bool
   | .lig _ _ font _ _ => u32Ok font
   | .disc pre post replace => exprList .D pre && exprList .D post && u32Ok replace
   | .hbox h w d shift ratio _ l =>
-    dimOk h && dimOk w && dimOk d && dimOk shift && decide (0 ≤ ratio) && dimOk ratio && exprList .H l
+    dimOk h && dimOk w && dimOk d && dimOk shift && decide (0 ≤ ratio) && intOk ratio && exprList .H l
   | .vbox h w d shift gset l =>
     dimOk h && dimOk w && dimOk d && dimOk shift && !gset && exprList .V l
   | .mark n => n = 0
@@ -1064,7 +1068,7 @@ def reprNode : Node → Bool
   | .char _ font => decide (font < 4294967296)
   | .lig _ _ font _ _ => decide (font < 4294967296)
   | .disc pre post rc => reprList .D pre && reprList .D post && decide (rc < 4294967296)
-  | .hbox _ _ _ _ ratio _ l => decide (0 ≤ ratio) && decide (ratio ≤ maxDimen) && reprList .H l
+  | .hbox _ _ _ _ ratio _ l => decide (0 ≤ ratio) && decide (ratio ≤ 2147483647) && reprList .H l
   | .vbox _ _ _ _ _ l => reprList .V l
   | .adjust l => reprList .V l
   | .ins box _ _ _ _ _ _ _ fp l => decide (box < 256) && decide (fp < 4294967296) && reprList .V l
